@@ -113,9 +113,10 @@ exe = executable('prog', files=['main.c'], libs=[%(libs)s])
 hdr = header_file('api.h')
 hdir = header_directory('include', include='**/*.hpp')
 hnone = header_directory('include2', include='*.zzz')
+hone = header_directory('include3', include='*.h')
 man = man_page('prog.1')
 man2 = man_page('doc/tool.1')
-install(exe, st, hdr, hdir, hnone, man, man2)
+install(exe, st, hdr, hdir, hnone, hone, man, man2)
 install(generic_file('data.txt'), directory=Path('share/p data', InstallRoot.prefix))
 """
 
@@ -128,6 +129,9 @@ CONFIGS = {
              '{top}/dd', False),
     'prebuilt-lib': (['--prefix={top}/pre'], None, True),
     'prebuilt-only': (['--prefix={top}/pre'], None, 'only'),
+    # the build files are those of a regeneration from the saved configuration (default exec-prefix: "same as prefix")
+    'regenerated': (['--prefix=/opt/my pre'], '{top}/dest dir', False, 'regenerate'),
+    'regenerated-in-place': (['--prefix={top}/pre fix', '--libdir={top}/l ib'], None, False, 'regenerate'),
 }
 
 
@@ -173,7 +177,7 @@ def _w(p, text):
 
 class InstallRun(Bounded):
     """A generated project (executable linked to a project shared library in a subdirectory, static library, header,
-    header directory with an include pattern, a header directory whose pattern matches nothing, man page, data file
+    header directory with an include pattern, one whose pattern matches nothing and one with a single match, man page, data file
     with directory=) configured by the tree under test and installed / uninstalled by GNU make with the real doppel
     and patchelf: the installed file set is exactly the declared one under the configured directories (DESTDIR
     honoured), run-time search paths of the installed program name installed library directories only, the installed
@@ -260,7 +264,8 @@ class InstallRun(Bounded):
         from pyvc.interp import REPO
         if 'project' in raw:
             return self.check_project(case, raw)
-        opts, destdir, prebuilt = CONFIGS[raw['config']]
+        opts, destdir, prebuilt = CONFIGS[raw['config']][:3]
+        regenerate = len(CONFIGS[raw['config']]) > 3
         top = tempfile.mkdtemp(prefix='pyvc_inst_')
         try:
             src, b = top + '/src', top + '/b'
@@ -273,7 +278,7 @@ class InstallRun(Bounded):
                                  True: 'int f(void); int h(void); int main(void) { return f() - 7 + h(); }\n',
                                  'only': 'int h(void); int main(void) { return h(); }\n'}[prebuilt])
             for f in ('api.h', 'include/a.hpp', 'include/deep/b.hpp', 'include/notes.txt', 'include2/readme.txt',
-                      'data.txt'):
+                      'include3/only.h', 'data.txt'):
                 _w(src + '/' + f, f)
             _w(src + '/prog.1', '.TH prog 1\n')
             _w(src + '/doc/tool.1', '.TH tool 1\n')
@@ -298,6 +303,10 @@ class InstallRun(Bounded):
             r = run([top + '/bin/bfg9000', 'configure-into', src, b, '--backend=make', '--no-resolve-packages'] + opts)
             if r.returncode != 0:
                 return self.fail(case, raw, 'configure_succeeds', stderr=r.stderr[-500:])
+            if regenerate:
+                r = run([top + '/bin/bfg9000', 'regenerate', b])
+                if r.returncode != 0:
+                    return self.fail(case, raw, 'regeneration_succeeds', stderr=r.stderr[-500:])
             dd = ['DESTDIR=' + destdir] if destdir else []
             r = run(['make', '-C', b, 'install'] + dd)
             if r.returncode != 0:
@@ -325,7 +334,8 @@ class InstallRun(Bounded):
             elif len(libs) != 1 or not libs[0].startswith(dirs['lib'] + '/'):
                 return self.fail(case, raw, 'run_time_dependency_installed_under_libdir', found=sorted(found), libdir=dirs['lib'])
             want = {dirs['bin'] + '/prog', dirs['lib'] + '/libstlib.a', dirs['include'] + '/api.h',
-                    dirs['include'] + '/a.hpp', dirs['include'] + '/deep/b.hpp', prefix + '/share/p data/data.txt'} | set(libs)
+                    dirs['include'] + '/a.hpp', dirs['include'] + '/deep/b.hpp', dirs['include'] + '/only.h',
+                    prefix + '/share/p data/data.txt'} | set(libs)
             # manual pages go to man<section>/ by their base name (compressed or not), whatever directory they came from
             mans = {f for f in found if f.startswith(dirs['man'] + '/man1/prog.1') or f.startswith(dirs['man'] + '/man1/tool.1')}
             pre = {f for f in found if f.endswith('/libpre.so')}
